@@ -3,6 +3,7 @@ import os
 import subprocess
 import sys
 
+from readers import lines_of
 from engine import NCPU, REPO, SPEC, MachineryError, gen_states, pool_map
 from tlaval import parse_action_label
 import tours
@@ -73,7 +74,7 @@ def make_inputs(d, R, long_at=0, bgzf_aligned=False, poison_at=0):
         # the same records as a multi-block BGZF file > 1 MiB in which records start exactly at 64 KiB ... 1 MiB
         from readers import align_starts, starts_of, write_bgzf
 
-        lines = align_starts(open(gaf).read().splitlines(), [1 << 16, 1 << 17, 1 << 18, 1 << 19, 1 << 20])
+        lines = align_starts(open(gaf).read().splitlines(), [1 << 16, 1 << 17, 1 << 18, 1 << 19, 1 << 20], pad=1300)      # > 1 MiB of output per 1000-record batch
         assert (1 << 20) in starts_of(lines), "alignment of record starts failed"
         os.unlink(gaf)
         gaf = gaf + ".gz"
@@ -127,12 +128,14 @@ _JOB_ENV = {}
 
 
 def _outcome_case(cid, k, res, ref):
-    prios = []
-    for l in res["written"]:
-        nm = l.split("\t")[0]
-        prios.append(prio_of(nm))
+    # what counts is the TEXT that was written, however it was cut into write() calls (one per record, one per batch, ...)
+    lines = "".join(res["written"]).split("\n")
+    if lines and lines[-1] == "":
+        lines.pop()
+    lines = [l + "\n" for l in lines]
+    prios = [prio_of(l.split("\t")[0]) for l in lines]
     return {"id": cid, "R": k["R"], "faults": res["faults"], "end": res["end"], "end_detail": res["end_detail"], "prios": prios,
-            "lines": res["written"], "ref": ref, "diverged": res["diverged"]}
+            "lines": lines, "ref": ref, "diverged": res["diverged"]}
 
 
 def replay_job(job):
@@ -335,7 +338,7 @@ def real_mp_tier(ctx, R, B, C, kill_at=None, delay=None, bgzf_aligned=False):
         hung = False
     except subprocess.TimeoutExpired:
         rc, hung = None, True
-    lines = open(out).read().splitlines() if os.path.exists(out) else []
+    lines = lines_of(open(out).read()) if os.path.exists(out) else []
     return rc, hung, [l.split("\t")[0] for l in lines]
 
 
